@@ -86,7 +86,7 @@ pub struct TB<V> {
     pub updates: Mutex<u64>,
     pub script: Mutex<Script>,
     /// custom listener eventfds per thread (to be drained when dispatched)
-    pub listeners: Mutex<Vec<Arc<EventFd>>>,
+    pub listeners: Mutex<Vec<(usize, Arc<EventFd>)>>,
     pub backends: Mutex<Vec<Backend>>,
     _v: PhantomData<fn() -> V>,
 }
@@ -203,8 +203,10 @@ impl<V: VringT<GM> + Send + Sync + 'static> VhostUserBackend for TB<V> {
             }
         } else {
             // custom listener: drain whatever listener eventfd of ours is readable
-            for e in self.listeners.lock().unwrap().iter() {
-                let _ = e.read();
+            for (t, e) in self.listeners.lock().unwrap().iter() {
+                if *t == thread_id {
+                    let _ = e.read();
+                }
             }
             self.log.push(rec);
         }
@@ -431,7 +433,7 @@ pub fn make_rig<V: VringT<GM> + Clone + Send + Sync + 'static>(cfg: Cfg, adapter
         },
         nthreads,
         barrier: Vec::new(),
-        barrier_id: (cfg.nq + 1) as u64,
+        barrier_id: 61234,
         kicks: (0..cfg.nq).map(|_| Vec::new()).collect(),
         calls: (0..cfg.nq).map(|_| Vec::new()).collect(),
         regions: Vec::new(),
@@ -444,7 +446,7 @@ pub fn make_rig<V: VringT<GM> + Clone + Send + Sync + 'static>(cfg: Cfg, adapter
     for t in 0..nthreads {
         let e = Arc::new(EventFd::new(libc::EFD_NONBLOCK).unwrap());
         (rig.handlers_reg)(t, e.as_raw_fd(), rig.barrier_id).expect("register barrier");
-        rig.tb.listeners.lock().unwrap().push(e.clone());
+        rig.tb.listeners.lock().unwrap().push((t, e.clone()));
         rig.barrier.push(e);
     }
     rig
